@@ -151,7 +151,10 @@ pub fn execute(plan: CheckPlan) -> i32 {
     // a job that lost its worker at scenario i is continued from i+1 (the death itself is handled below)
     let mut pending: Vec<(usize, i64)> = dead.iter().filter(|d| d.1 >= 0).map(|d| (d.0, d.1)).collect();
     let mut rounds = 0;
-    while !pending.is_empty() && rounds < 64 {
+    // a systemic hang (every scenario of every job dies) must not make the check itself unbounded:
+    // once many workers have died the point is made; the remaining scenarios are not run
+    const MAX_DEATHS: usize = 12;
+    while !pending.is_empty() && rounds < 64 && dead.len() < MAX_DEATHS {
         rounds += 1;
         let specs: Vec<JobSpec> = pending
             .iter()
@@ -177,6 +180,10 @@ pub fn execute(plan: CheckPlan) -> i32 {
             }
         }
         pending = next;
+    }
+    if dead.len() >= MAX_DEATHS {
+        total.notes.push(format!("{} workers died; continuation stopped and only the first {} deaths are confirmed", dead.len(), MAX_DEATHS / 2));
+        dead.truncate(MAX_DEATHS / 2);
     }
     // confirm each death alone, from its own scenario file
     for (ji, index, how) in dead {
